@@ -93,7 +93,7 @@ End AI.
 Lemma run_step_g s x c c' r : g x c -> run_step s c = (c', r) -> g x c'.
 Proof.
   intros [G1 G2] E. unfold run_step in E.
-  destruct s as [t|t|t|e0].
+  destruct s as [t|t|t|e0|t].
   4: { inversion E; subst; split; assumption. }
   all: destruct (t_open c) eqn:T; cbn in E; inversion E; subst; split; cbn; rewrite ?T; auto;
        intros H; specialize (G1 H); discriminate.
@@ -263,7 +263,7 @@ Proof.
   intros [T Lg]. unfold do_close, progs_now. cbn [p_close p_resets close_prog exec msem].
   unfold run_hook. destruct (e_on_close e) as [ss|]; [|reflexivity].
   rewrite run_steps_closed by exact T. cbn.
-  destruct ss as [|[| | |] ss]; reflexivity.
+  destruct ss as [|[| | | |] ss]; reflexivity.
 Qed.
 
 Theorem second_close_platform_hook h ss e c :
@@ -379,6 +379,15 @@ Example history_sat :
   = [(true, true, Normal); (true, true, Normal); (false, false, Raised EConnError); (true, true, Normal);
      (false, false, Raised ENotOpened)].
 Proof. vm_compute. reflexivity. Qed.
+
+(* Settings.NO_TERMINATE_ON_TIMEOUT: the timeout leaves the transport open — the state __exit__ / close() meet really is
+   an open one — and the with-block / the close() still end released, the with-block with the body's ScrapliTimeout *)
+Example no_terminate_sat :
+  let e1 := mkE true Normal Normal [] None None in
+  run_steps [SStallOpen t_init] (mkC true true t_init) = (mkC true true t_init, Raised ETimeout) /\
+  trace progs_now [OWith e1 [SStallOpen t_init]; OOpen e1; OOperate [SStallOpen t_init]; OClose e1] (mkC false false t_init)
+  = [(false, false, Raised ETimeout); (true, true, Normal); (true, true, Raised ETimeout); (false, false, Normal)].
+Proof. split; vm_compute; reflexivity. Qed.
 
 Example platform_hook_sat :
   hook_shape_ok [HAcquirePriv; HWrite [101;120;105;116]; HSendReturn] = true /\
